@@ -112,6 +112,9 @@ class SelWorld:
         self.got = {l: {"S": [], "R": []} for l in kinds}
         self.part = {l: {"S": False, "R": False} for l in kinds}
         self.deadline = {"S": False, "R": False}
+        self.deadline_call = {}
+        self.started = set()
+        self.t0p = {}
         self.strangers = {}
         self.schedule = []
         self.script_pos = {l: 0 for l in kinds}
@@ -167,16 +170,18 @@ class SelWorld:
                 reactor.run_call(dc)
         for p in ("S", "R"):
             if p in self.results and p not in self.result_time:
-                self.result_time[p] = reactor.seconds() - self.t0
+                self.result_time[p] = reactor.seconds() - self.t0p.get(p, self.t0)
 
-    def _Start(self, x, y):
-        self.t0 = reactor.seconds()
-        self.deadline_call = {}
-        for p in ("S", "R"):
-            before = set(id(c) for c in reactor.calls)
+    def _Start(self, p, y):
+        self.t0p[p] = reactor.seconds()
+        self.started.add(p)
+        before = set(id(c) for c in reactor.calls)
+        try:
             self.party[p].connect().addBoth(lambda r, p=p: self.results.__setitem__(p, r))
-            new = [c for c in reactor.calls if id(c) not in before and getattr(c.func, "__name__", "") == "cancel"]
-            self.deadline_call[p] = new[0] if new else None
+        except Exception as e:          # connect() must return a Deferred, whatever has happened before
+            self.results[p] = Failure(e)
+        new = [c for c in reactor.calls if id(c) not in before and getattr(c.func, "__name__", "") == "cancel"]
+        self.deadline_call[p] = new[0] if new else None
 
     def _Established(self, l, y):
         k = self.kinds[l]
@@ -335,8 +340,14 @@ class SelWorld:
             if n not in ("BadHandshake", "ConnectionDone", "ConnectionLost", "CancelledError", "ConnectionRefusedError",
                          "ConnectingCancelledError", "TransitError", "ConnectionClosed"):
                 internal.append("%s: %s" % (n, str(e)[:100]))
+        for p in ("S", "R"):
+            r = self.results.get(p)
+            # connect() may fail (no contender succeeded: the last contender's error); a programming error is not that
+            if isinstance(r, Failure) and isinstance(r.value, (RuntimeError, TypeError, AttributeError, LookupError, AssertionError,
+                                                                  NameError, ArithmeticError)):
+                internal.append("connect() of %s failed with %s: %s" % (p, type(r.value).__name__, str(r.value)[:80]))
         log.removeObserver(self.logged)
-        rec = {"tid": tid, "l": {}, "resultS": self.result_link("S"), "resultR": self.result_link("R"),
+        rec = {"tid": tid, "l": {}, "startedS": "S" in self.started, "startedR": "R" in self.started, "resultS": self.result_link("S"), "resultR": self.result_link("R"),
                "deadlineS": self.deadline["S"], "deadlineR": self.deadline["R"], "internal": internal,
                "resultTime": self.result_time}
         for l, k in self.kinds.items():
@@ -357,8 +368,9 @@ CONFIGS = {
 }
 
 INVARIANTS = ["AtMostOneGo", "GoOnlyAfterRH", "ReceiverNeedsGo", "SameLink", "KeyHoldersOnly", "ResultIsRecords", "OthersClosed",
-              "DeadlineDecides"]
-OBS_NAMES = ["AtMostOneGo", "GoOnlyAfterRH", "ReceiverNeedsGo", "SameLink", "KeyHoldersOnly", "OthersClosed", "Deadline", "NoInternal"]
+              "DeadlineDecides", "WinnerReturned"]
+OBS_NAMES = ["AtMostOneGo", "GoOnlyAfterRH", "ReceiverNeedsGo", "SameLink", "KeyHoldersOnly", "OthersClosed", "Deadline", "NoInternal",
+             "WinnerReturned"]
 
 
 def consts_for(kinds, scripts, cut, partial):
